@@ -224,7 +224,18 @@ def check_theorems(props_rel):
         m = re.search(r'File "([^"]+)", line (\d+)', out)
         failing = f"{m.group(1)}:{m.group(2)}" if m else "unknown"
     discharged = len(stmts) if ok else sum(1 for n in names if ass.get(n) is not None)
+    chk = None
+    if ok and os.environ.get("VERIF_TIER_EFFECTIVE") == "thorough" and os.environ.get("VERIF_NO_COQCHK") != "1":
+        # independent re-check of the compiled property file and everything it depends on
+        mod = "TLV." + props_rel.replace("/", ".")
+        rc2, so, se = sh(["coqchk", "-silent", "-o", "-Q", "theories", "TLV", mod], cwd=COQ, timeout=3000)
+        tail = (so + se)[-1500:]
+        chk = {"cmd": f"coqchk -silent -o -Q theories TLV {mod}", "rc": rc2, "output_tail": tail}
+        if rc2 != 0:
+            ok = False
+            failing = "coqchk rejected " + mod
     return {
+        "coqchk": chk,
         "ok": ok, "props_file": f"coq/theories/{props_rel}.v", "statements": stmts,
         "obligations": len(stmts), "discharged": discharged, "axioms": axioms,
         "assumptions": {k: ("closed" if v == [] else v) for k, v in ass.items()},
@@ -547,7 +558,7 @@ def standard_run(ctx, *, props, family, consts, go_runner, gen_ops, oracle, corr
                          "extraction with ExtrOcamlBasic only (no Extract Constant); OCaml 4.13.1; ocaml/conv.ml + ocaml/drv_%s.ml" % family]
                         + list(trusted)
                         + ["axioms: " + (", ".join(thm["axioms"]) if thm["axioms"] else "none (every theorem closed under the global context)")],
-        "theorems": thm["statements"], "assumptions_per_theorem": thm["assumptions"],
+        "theorems": thm["statements"], "assumptions_per_theorem": thm["assumptions"], "coqchk": thm.get("coqchk"),
         "evaluations": len(ops), "distinct_nontrivial": len(set(lines)),
         "rule": rule, "op_kinds": kinds, "go_verdicts": verdicts,
         "correspondence": corr_name, "correspondence_mismatches": len(mism), "oracle_failures": len(bad),
